@@ -8,12 +8,17 @@ import (
 
 // VerifProofRoundTrip: Unmarshal(Marshal(p)) == p for every list of hashes, including the empty list.
 func VerifProofRoundTrip() {
-	k := rt.Choose(rt.Param("k", 2) + 1)
+	kmin := rt.Param("kmin", 0)
+	k := kmin + rt.Choose(rt.Param("k", 2)-kmin+1)
 	p := Proof{}
 	if k == 0 && rt.Choose(2) == 1 {
 		p = nil
 	}
 	for i := 0; i < k; i++ {
+		if i > 0 && rt.Param("samehash", 0) == 1 {
+			p = append(p, p[0]) // long-proof run: one arbitrary hash repeated
+			continue
+		}
 		h := rt.Bytes("h")
 		rt.Assume(string(h) != "")
 		p = append(p, h)
